@@ -55,7 +55,7 @@ def violation(res, sig, what, inp):
         res.violations.append({"signature": sig, "what": what, "input": inp})
 
 
-WITH_HYPS = {"PiBas", "PiPack", "SSE2", "PiPtr", "ANSS16", "CT14", "SSE1", "Pi2Lev"}
+WITH_HYPS = {"PiBas", "PiPack", "SSE2", "PiPtr", "ANSS16", "CT14", "SSE1", "Pi2Lev", "DP17"}
 
 
 def case_from_replay(rp):
